@@ -14,6 +14,7 @@ package e5
 import (
 	"bytes"
 	"encoding/hex"
+	"encoding/json"
 	"fmt"
 	"io"
 	"math"
@@ -193,8 +194,12 @@ func (e *Engine) Run(ops []string, res *report.Result) *report.Failure {
 	}
 	var shape []string
 	handles := map[string]*tclient.Proxy{}
+	var listed tclient.Toxics
+	listedOK := false
+	tsURL := ts.URL
 	for i, op := range ops {
 		curHandle := ""
+		listedOK = false
 		res.Ops++
 		op = e.E4.Subst(op)
 		w := strings.Fields(op)
@@ -341,6 +346,19 @@ func (e *Engine) Run(ops []string, res *report.Result) *report.Failure {
 					return true
 				}
 			}
+		case "ht":
+			// the toxics of a proxy, listed through a handle the caller has kept (and has listed
+			// through before): for the model this is the listing by name
+			if hp := handles[w[1]]; hp != nil {
+				line = "c toxics " + hp.Name
+				act = func() bool {
+					ts, err := hp.Toxics()
+					listed, listedOK = ts, err == nil
+					return err != nil
+				}
+			} else {
+				continue
+			}
 		case "cli":
 			var argv []string
 			switch w[1] {
@@ -431,6 +449,15 @@ func (e *Engine) Run(ops []string, res *report.Result) *report.Failure {
 				return of
 			}
 		}
+		if w[0] == "ht" && listedOK {
+			// what the client reads back is the server's state: the list it returned is the one
+			// the server has now - nothing left over from what the handle held before
+			if hp := handles[w[1]]; hp != nil {
+				if srvL, cliL, ok := sameToxics(tsURL, hp.Name, listed); !ok {
+					return fail(i, "oracle", "C19", srvL, cliL, "Proxy.Toxics() on a handle returned a list that differs from the server's (attributes or toxics the server does not have)", "e5:C19:toxics-read-back-differs")
+				}
+			}
+		}
 		res.Count("op:" + w[0] + " " + w[1])
 		res.Count(fmt.Sprintf("last-status:%d", lastStatus))
 		// ---- model-free oracles of C19
@@ -455,6 +482,31 @@ func (e *Engine) Run(ops []string, res *report.Result) *report.Failure {
 		res.AddSample(map[string]any{"ops": ops, "outcome": strings.Join(shape, " > ")}, 6)
 	}
 	return nil
+}
+
+// sameToxics compares a list the client returned with the server's own answer (fetched without
+// the client), both through the same canonical JSON form.
+func sameToxics(url, name string, got tclient.Toxics) (string, string, bool) {
+	resp, err := http.Get(url + "/proxies/" + name + "/toxics")
+	if err != nil {
+		return "", "", true
+	}
+	defer resp.Body.Close()
+	if resp.StatusCode != 200 {
+		return "", "", true
+	}
+	var a, b any
+	raw, _ := io.ReadAll(resp.Body)
+	if json.Unmarshal(raw, &a) != nil {
+		return "", "", true
+	}
+	mine, _ := json.Marshal(got)
+	if json.Unmarshal(mine, &b) != nil {
+		return "", "", true
+	}
+	ca, _ := json.Marshal(a)
+	cb, _ := json.Marshal(b)
+	return string(ca), string(cb), string(ca) == string(cb)
 }
 
 func cliAttrs(text string) []string {
